@@ -14,8 +14,9 @@
             (pre: context already cancelled; predeadline: deadline already passed; at: cancel delayMs after
              the peer received its j-th datagram; deadline: context.WithTimeout(ms))
     reply, garbage   the concrete datagrams the peer sends (hex)
-    ctx     std | wrap (optional, default std): the context is of a standard library type / of a user-defined type
-            with its own Done channel.  The logic machine does not depend on it (the runtime observations do).
+    ctx     std | wrap | cause (optional, default std): the context is of a standard library type / of a user-defined
+            type with its own Done channel / carries a cause of the caller's own (WithCancelCause, WithTimeoutCause:
+            Err() is still Canceled / DeadlineExceeded, context.Cause is not).  The logic machine does not depend on it (the runtime observations do).
   impl:  class=<c> pkt=<fields|-> first=<hex|-|na> verbatim=<b|na> resends=<ok|…|na> prompt=<b|na>
          silent=<b|na> goroutines=<b> fds=<b> t0=<ms> arr=<ms,ms,…|-|na> end=<ms|na> d=<retry ms>
          (observations of the real call as classes and booleans; the last four tokens are the raw numbers
@@ -86,6 +87,7 @@ inductive CancelKind where
 def parsePeer (s : String) : Option PeerKind :=
   match s.splitOn ":" with
   | ["silent"] => some .silent
+  | ["usilent"] => some .silent   -- the same peer on a unixgram socket (Client.Net = "unixgram"): no difference to the logic
   | ["closed"] => some .closed
   | ["flood"] => some .flood
   | ["late", k, g, m] => do pure (.late (← parseNat k) (← parseNat g) (← parseNat m))
@@ -192,7 +194,7 @@ def c08 (op : String) (args : List String) (impl : String) : Verdict :=
   if impl.startsWith "INCONCLUSIVE" then { agree := true, prop := "PROP_NA", model := impl, why := "inconclusive" } else
   match op, args with
   | "scenario", code :: id :: auth :: secret :: attrs :: retry :: maxErr :: skip :: peer :: cancel :: reply :: garbage :: rest =>
-    if !(rest == [] || rest == ["std"] || rest == ["wrap"]) then bad "scenario-args" else
+    if !(rest == [] || rest == ["std"] || rest == ["wrap"] || rest == ["cause"]) then bad "scenario-args" else
     match parseInt code, parseNat id, unhex auth, unhex secret, parseAttrList attrs, parseInt retry, parseInt maxErr,
           parseNat skip, parsePeer peer, parseCancel cancel, unhex reply, unhex garbage with
     | some code, some id, some auth, some secret, some attrs, some retry, some maxErr, some skip, some peer,
